@@ -159,11 +159,11 @@ var (
 	bypassSid = sid{kind: "bypass"}
 )
 
-func putroot() *Op          { return &Op{Name: "PUTROOTFH"} }
-func putfh(fh []byte) *Op   { return &Op{Name: "PUTFH", FH: fh} }
-func getfh() *Op            { return &Op{Name: "GETFH"} }
-func savefh() *Op           { return &Op{Name: "SAVEFH"} }
-func restorefh() *Op        { return &Op{Name: "RESTOREFH"} }
+func putroot() *Op           { return &Op{Name: "PUTROOTFH"} }
+func putfh(fh []byte) *Op    { return &Op{Name: "PUTFH", FH: fh} }
+func getfh() *Op             { return &Op{Name: "GETFH"} }
+func savefh() *Op            { return &Op{Name: "SAVEFH"} }
+func restorefh() *Op         { return &Op{Name: "RESTOREFH"} }
 func lookup(name string) *Op { return &Op{Name: "LOOKUP", Nm: name} }
 func openName(oo, name string, share uint32, how string) *Op {
 	return &Op{Name: "OPEN", OO: oo, Nm: name, Share: share, How: how, Claim: "NULL"}
@@ -172,22 +172,26 @@ func openFH(oo string, share uint32, claim string) *Op {
 	return &Op{Name: "OPEN", OO: oo, Share: share, How: "NOCREATE", Claim: claim}
 }
 func downgrade(s sid, share uint32) *Op { return &Op{Name: "OPEN_DOWNGRADE", Sid: s, Share: share} }
-func closeOp(s sid) *Op                { return &Op{Name: "CLOSE", Sid: s} }
+func closeOp(s sid) *Op                 { return &Op{Name: "CLOSE", Sid: s} }
 func lockNew(open sid, lo, lt string, s, e int) *Op {
 	return &Op{Name: "LOCK", NewO: true, Sid2: open, LO: lo, LT: lt, RK: "range", S: s, E: e}
 }
 func lockMore(lock sid, lt string, s, e int) *Op {
 	return &Op{Name: "LOCK", Sid: lock, LT: lt, RK: "range", S: s, E: e}
 }
-func lockt(lo, lt string, s, e int) *Op { return &Op{Name: "LOCKT", LO: lo, LT: lt, RK: "range", S: s, E: e} }
-func locku(lock sid, s, e int) *Op      { return &Op{Name: "LOCKU", Sid: lock, LT: "W", RK: "range", S: s, E: e} }
-func freeSid(s sid) *Op                 { return &Op{Name: "FREE_STATEID", Sid: s} }
-func testSids(s ...sid) *Op             { return &Op{Name: "TEST_STATEID", Sids: s} }
-func read(s sid) *Op                    { return &Op{Name: "READ", Sid: s, Off: 2, Cnt: 4} }
-func write(s sid, data string) *Op      { return &Op{Name: "WRITE", Sid: s, Off: 1, Data: []byte(data)} }
-func setsize(s sid, size uint64) *Op    { return &Op{Name: "SETATTR", Sid: s, Size: size} }
-func remove(name string) *Op            { return &Op{Name: "REMOVE", Nm: name} }
-func rename(old, new string) *Op        { return &Op{Name: "RENAME", Nm: old, Nm2: new} }
+func lockt(lo, lt string, s, e int) *Op {
+	return &Op{Name: "LOCKT", LO: lo, LT: lt, RK: "range", S: s, E: e}
+}
+func locku(lock sid, s, e int) *Op {
+	return &Op{Name: "LOCKU", Sid: lock, LT: "W", RK: "range", S: s, E: e}
+}
+func freeSid(s sid) *Op              { return &Op{Name: "FREE_STATEID", Sid: s} }
+func testSids(s ...sid) *Op          { return &Op{Name: "TEST_STATEID", Sids: s} }
+func read(s sid) *Op                 { return &Op{Name: "READ", Sid: s, Off: 2, Cnt: 4} }
+func write(s sid, data string) *Op   { return &Op{Name: "WRITE", Sid: s, Off: 1, Data: []byte(data)} }
+func setsize(s sid, size uint64) *Op { return &Op{Name: "SETATTR", Sid: s, Size: size} }
+func remove(name string) *Op         { return &Op{Name: "REMOVE", Nm: name} }
+func rename(old, new string) *Op     { return &Op{Name: "RENAME", Nm: old, Nm2: new} }
 
 // firstOpen returns the client's open of the given open-owner on the
 // file with the given handle.
@@ -287,25 +291,25 @@ var scenarios = []scenario{
 		s.do(a, putfh(s.fh(1)), read(fut))
 		s.do(a, putfh(s.fh(1)), read(zero))
 		s.do(a, putfh(s.fh(1)), read(junk))
-		s.do(a, putfh(s.fh(2)), read(oa.sid))          // wrong file
-		s.do(a, putfh(s.fh(1)), read(ob.sid))          // wrong file
-		s.do(b, putfh(s.fh(1)), read(ob.sid))          // other client's id (same other value as B's own!)
-		s.do(a, read(oa.sid))                          // no file handle
-		s.do(a, putroot(), read(oa.sid))               // directory
+		s.do(a, putfh(s.fh(2)), read(oa.sid)) // wrong file
+		s.do(a, putfh(s.fh(1)), read(ob.sid)) // wrong file
+		s.do(b, putfh(s.fh(1)), read(ob.sid)) // other client's id (same other value as B's own!)
+		s.do(a, read(oa.sid))                 // no file handle
+		s.do(a, putroot(), read(oa.sid))      // directory
 		s.do(a, putfh(s.fh(1)), closeOp(old))
 		s.do(a, putfh(s.fh(1)), downgrade(fut, shR))
 		s.do(a, putfh(s.fh(1)), lockNew(old, "l1", "R", 0, 1))
 		s.do(a, putfh(s.fh(1)), lockNew(oa.sid, "l1", "R", 0, 1))
 		la := a.lock("o1", "l1", s.fh(1))
 		s.do(a, testSids(oa.sid, old, fut, zero, junk, la.sid, anonSid, bypassSid, sid{kind: "reg", other: 777, seq: 1}))
-		s.do(a, putfh(s.fh(1)), closeOp(la.sid))       // lock id where an open id is needed
-		s.do(a, putfh(s.fh(1)), locku(oa.sid, 0, 1))   // open id where a lock id is needed
+		s.do(a, putfh(s.fh(1)), closeOp(la.sid))     // lock id where an open id is needed
+		s.do(a, putfh(s.fh(1)), locku(oa.sid, 0, 1)) // open id where a lock id is needed
 		s.do(a, freeSid(oa.sid))
 		s.do(a, putfh(s.fh(1)), downgrade(oa.sid, shRW|4))
 		s.do(a, putfh(s.fh(1)), &Op{Name: "OPEN_DOWNGRADE", Sid: oa.sid, Share: shR, Deny: 1})
 		s.do(a, putfh(s.fh(1)), closeOp(oa.sid))
-		s.do(a, putfh(s.fh(1)), read(oa.sid))          // closed
-		s.do(a, putfh(s.fh(1)), read(la.sid))          // lock state gone with the open
+		s.do(a, putfh(s.fh(1)), read(oa.sid)) // closed
+		s.do(a, putfh(s.fh(1)), read(la.sid)) // lock state gone with the open
 		s.do(a, testSids(oa.sid, la.sid))
 	}},
 	{"unlink-while-open", func(s *script) {
@@ -402,8 +406,8 @@ var scenarios = []scenario{
 		s.do(a, putfh(s.fh(1)), lockNew(oa.sid, "l1", "W", 0, 1))
 		s.do(a, putfh(s.fh(1)), downgrade(oa.sid, shR))
 		la := a.lock("o1", "l1", s.fh(1))
-		s.do(a, putfh(s.fh(1)), write(la.sid, "w"))   // lock state still entitles to write
-		s.do(a, putfh(s.fh(1)), write(oa.sid, "w"))   // the open does not
+		s.do(a, putfh(s.fh(1)), write(la.sid, "w"))                       // lock state still entitles to write
+		s.do(a, putfh(s.fh(1)), write(oa.sid, "w"))                       // the open does not
 		s.do(a, putroot(), openName("o1", "a", shW, "NOCREATE"), getfh()) // upgrade again
 		s.do(a, putfh(s.fh(1)), downgrade(oa.sid, shW))
 		s.do(a, putfh(s.fh(1)), read(la.sid))
@@ -423,7 +427,7 @@ var scenarios = []scenario{
 		s.clients = append(s.clients, a2)
 		s.register(a2, false) // unconfirmed: the old incarnation keeps its state
 		s.do(a, putfh(s.fh(1)), read(a.open("o1", s.fh(1)).sid))
-		s.register(a, false) // EXCHANGE_ID of the confirmed incarnation
+		s.register(a, false)          // EXCHANGE_ID of the confirmed incarnation
 		s.newSession(a2, a2.csNext+1) // misordered
 		s.newSession(a2, a2.csNext-1) // replay of "nothing"
 		s.newSession(a2, a2.csNext)   // confirms: old incarnation is discarded
@@ -461,34 +465,34 @@ var scenarios = []scenario{
 		a := s.client("A", 1)
 		open := []*Op{putroot(), openName("o1", "a", shR, "NOCREATE"), getfh()}
 		s.doOn(a, 0, 0, true, open...)
-		s.resend(a, 0, 0, 1, true, open...)                // identical, cached
-		s.resend(a, 0, 0, 1, true, open...)                // again
-		s.resend(a, 0, 0, 1, true, putroot(), getfh())     // different content (shorter)
+		s.resend(a, 0, 0, 1, true, open...)                                                           // identical, cached
+		s.resend(a, 0, 0, 1, true, open...)                                                           // again
+		s.resend(a, 0, 0, 1, true, putroot(), getfh())                                                // different content (shorter)
 		s.resend(a, 0, 0, 1, true, putroot(), openName("o1", "a", shR, "NOCREATE"), getfh(), getfh()) // longer
-		s.resend(a, 0, 0, 1, true, putroot(), getfh(), getfh()) // same length, other operations
-		s.resend(a, 0, 0, 1, true, putroot(), openName("o1", "b", shW, "NOCREATE"), getfh()) // same shape, other arguments
-		s.resend(a, 0, 0, 3, true, open...)                // ahead
-		s.resend(a, 0, 0, 0, true, open...)                // behind
-		s.resend(a, 0, 5, 1, true, open...)                // bad slot
+		s.resend(a, 0, 0, 1, true, putroot(), getfh(), getfh())                                       // same length, other operations
+		s.resend(a, 0, 0, 1, true, putroot(), openName("o1", "b", shW, "NOCREATE"), getfh())          // same shape, other arguments
+		s.resend(a, 0, 0, 3, true, open...)                                                           // ahead
+		s.resend(a, 0, 0, 0, true, open...)                                                           // behind
+		s.resend(a, 0, 5, 1, true, open...)                                                           // bad slot
 		up := []*Op{putroot(), openName("o1", "a", shW, "NOCREATE"), getfh()}
-		s.doOn(a, 0, 0, false, up...)                      // not cached (3 results)
+		s.doOn(a, 0, 0, false, up...) // not cached (3 results)
 		s.resend(a, 0, 0, 2, false, up...)
-		s.resend(a, 0, 0, 1, true, open...)                // the one before: behind now
+		s.resend(a, 0, 0, 1, true, open...) // the one before: behind now
 		one := []*Op{putroot()}
-		s.doOn(a, 0, 0, false, one...)                     // small replies are always cached
+		s.doOn(a, 0, 0, false, one...) // small replies are always cached
 		s.resend(a, 0, 0, 3, false, one...)
 		fail := []*Op{putroot(), lookup("nope"), getfh()}
-		s.doOn(a, 0, 0, false, fail...)                    // failed at the second operation
+		s.doOn(a, 0, 0, false, fail...) // failed at the second operation
 		s.resend(a, 0, 0, 4, false, fail...)
-		s.resend(a, 0, 0, 4, false, putroot())             // shorter than the cached failure
+		s.resend(a, 0, 0, 4, false, putroot()) // shorter than the cached failure
 		s.doOn(a, 0, 1, true, putfh(s.fh(1)), closeOp(a.open("o1", s.fh(1)).sid))
 		s.resend(a, 0, 1, 1, true, putfh(s.fh(1)), closeOp(a.open("o1", s.fh(1)).sid))
 		many := []*Op{}
 		for i := 0; i < maxOps; i++ {
 			many = append(many, putroot())
 		}
-		s.doOn(a, 0, 0, true, many...)                     // too many operations
-		s.resend(a, 0, 0, 4, false, fail...)               // the cache entry was dropped
+		s.doOn(a, 0, 0, true, many...)       // too many operations
+		s.resend(a, 0, 0, 4, false, fail...) // the cache entry was dropped
 		s.doOn(a, 0, 0, true, putroot(), &Op{Name: "SEQUENCE"})
 		s.do(a, getfh())
 	}},
